@@ -12,7 +12,7 @@ import (
 func init() {
 	register(&property{
 		ID:          "C11",
-		Explanation: "Static decision of the accounting mechanisms of the proxy: (R1) countFailure: the only countFail arguments in the module are +1 and -1; after the +1 a goroutine is started on whose every path (sleep of the configured fail duration, then) countFail(-1) on the same peer is reached before it ends; (R2/R3) proxy Handle, path-evaluated over every outcome of selection, dialing and tryAgain: a new attempt happens only after tryAgain returned true, giving up returns the last error, and on success every peer of the selected upstream is counted +1, the deferred cleanup closes every upstream connection and counts every peer -1, and proxy() runs in between on exactly the dialed connections; (R4) the active checker marks a peer unhealthy only on the dial-error edge and healthy only after a successful dial; (R5) Upstream.healthy/full/available, path-evaluated over all peer states, equal their definitions (every peer consulted); (R6) the counters peer.fails/numConns/unhealthy are written only by the atomic add / compare-and-swap inside countFail/countConn/setHealthy.",
+		Explanation: "Static decision of the accounting mechanisms of the proxy: (R1) countFailure: the only countFail arguments in the module are +1 and -1; after the +1 a goroutine is started on whose every path (sleep of the configured fail duration, then) countFail(-1) on the same peer is reached before it ends; (R2/R3) proxy Handle, path-evaluated over every outcome of selection, dialing and tryAgain: a new attempt happens only after tryAgain returned true, giving up returns the last error, and on success every peer of the selected upstream is counted +1, the deferred cleanup closes every upstream connection and counts every peer -1, and proxy() runs in between on exactly the dialed connections; (R4) the active checker marks a peer unhealthy only on the dial-error edge and healthy only after a successful dial; (R5) Upstream.healthy/full/available, path-evaluated over all peer states, equal their definitions (every peer consulted); (R6) the counters peer.fails/numConns/unhealthy are written only by the atomic add / compare-and-swap inside countFail/countConn/setHealthy. Added: (R7) tryAgain, path-evaluated: gives up iff time.Since(start) >= try_duration (nothing added), otherwise waits on timer(try_interval) | ctx.Done; (R8) no option that Handler.Provision defaults after provisioning the upstreams is read while they are provisioned.",
 		NotDecided:  "The timing of the failure window (sleep-based), the exact history statement 'out of rotation iff >= max_fails failures remembered', check-then-act races between available() and countConn under concurrency.",
 		Run:         runC11,
 	})
